@@ -19,6 +19,9 @@ theorem skel_Quit : Gen.skel_Quit = Spec.Skel.skel_Quit := by decide +kernel
 theorem skel_write : Gen.skel_write = Spec.Skel.skel_write := by decide +kernel
 theorem skel_receive : Gen.skel_receive = Spec.Skel.skel_receive := by decide +kernel
 theorem skel_decode : Gen.skel_decode = Spec.Skel.skel_decode := by decide +kernel
+/-- every connection starts by resetting the tracked state; teardown closes the socket -/
+theorem skel_state_reset : Gen.skel_state_reset = Spec.Skel.skel_state_reset ∧
+    Gen.skel_ircConn_Close = Spec.Skel.skel_ircConn_Close := by decide +kernel
 theorem skel_ctxgroup :
     Gen.skel_ctxgroup_New = Spec.Skel.skel_ctxgroup_New ∧ Gen.skel_ctxgroup_Wait = Spec.Skel.skel_ctxgroup_Wait ∧
     Gen.skel_ctxgroup_Go = Spec.Skel.skel_ctxgroup_Go := by decide +kernel
